@@ -19,6 +19,7 @@ import struct
 # ------------------------------------------------------------------------------------------------
 # C03: netlist specs
 # ------------------------------------------------------------------------------------------------
+# nonalpha_bus_name (K4, except names starting with a backslash: K9) and glob_name (K7) are repaired: they must round-trip
 RISKY_C03 = ['nonalpha_bus_name', 'bitlike_scalar_name', 'glob_name']
 # shapes that used to break the round trip (C03-K1, K2, K3, K6: repaired in the writer / reader) and are now
 # part of the ordinary generation: any number of them in one netlist, together with a risky feature or not
@@ -418,6 +419,8 @@ def _shrink_candidates(spec):
 # ------------------------------------------------------------------------------------------------
 # C05: abstract designs, independent writer, expected structure
 # ------------------------------------------------------------------------------------------------
+# glob_net_name (K7), amp_bus_ident (K4) and duplicate_bit (K11) are repaired: no open entry excuses them any more,
+# the texts must be read as written (they stay in this list so that every run produces them deliberately)
 RISKY_C05 = ['design_undeclared', 'glob_net_name', 'amp_bus_ident', 'duplicate_bit', 'escaped_bus_name',
              'bare_instance', 'array_size_zero', 'second_design', 'missing_parens', 'trailing_tokens']
 # texts of these kinds must be refused by the reader
